@@ -164,6 +164,9 @@ func runCase(r *hx.Run, c hx.Case) {
 		spec.Pre = []bytex.KV{{K: "X-Pre", V: []string{"preformatted value"}}}
 	case "multiline":
 		spec.Pre = []bytex.KV{{K: "X-Multi", V: []string{"line one\r\n line two\r\n line three"}}}
+	case "lfmulti":
+		// folded by the caller with bare LF + TAB: one CRLF-terminated line for the header-line accounting
+		spec.Pre = []bytex.KV{{K: "X-Multi-LF", V: []string{"line one\n\tline two\n\tline three"}}}
 	case "longsubject":
 		spec.Gen[0].V = []string{strings.Repeat("a long subject that must be folded ", 6)}
 	}
@@ -304,7 +307,7 @@ func Run(r *hx.Run, replay []hx.Case) {
 	txt := [][]byte{[]byte("Hello signed world\r\n"), []byte("line with = and trailing blank \r\n.dot\r\n"), []byte("\xc3\xa4 UTF-8 text\r\nsecond\r\n"), []byte("no final newline")}
 	bin := [][]byte{[]byte("\x00\x01binary\xff"), bytes.Repeat([]byte("0123456789"), 30)}
 	encs := []string{"quoted-printable", "base64", "8bit"}
-	hdrvars := []string{"none", "emptygen", "ccignore", "toignore", "preform", "multiline", "longsubject", "afterskip"}
+	hdrvars := []string{"none", "emptygen", "ccignore", "toignore", "preform", "multiline", "lfmulti", "longsubject", "afterskip"}
 	names := []string{"a.bin", "a long file name that makes the disposition header exceed the folding limit.pdf", "na\xc3\xafve.txt"}
 	ci := 0
 	for n := 0; n <= 2; n++ {
